@@ -17,7 +17,7 @@ for p in $props; do
     if ! (cd "$scratch/repo" && patch -p1 -s --forward < "/verif/$patch" >/dev/null 2>&1); then
       echo "SKIP  $p/$name (patch no longer applies)"; rm -rf "$scratch"; continue
     fi
-    mkdir -p "$scratch/verif"; ln -s /verif/libspec "$scratch/verif/libspec"; ln -s /verif/replaytmpl "$scratch/verif/replaytmpl"; ln -s /verif/bounded "$scratch/verif/bounded"; cp /verif/known_findings.json "$scratch/verif/" 2>/dev/null
+    mkdir -p "$scratch/verif"; ln -s /verif/libspec "$scratch/verif/libspec"; ln -s /verif/replaytmpl "$scratch/verif/replaytmpl"; ln -s /verif/bounded "$scratch/verif/bounded"; cp /verif/known_findings.json /verif/contracts_names.json "$scratch/verif/" 2>/dev/null
     dirs=$(grep '^+++ ' "/verif/$patch" | sed 's|^+++ [ab]/||; s|\t.*||' | xargs -n1 dirname | sort -u | paste -sd,)
     out=$(GOVC_QUERY_TIMEOUT=${GOVC_SELFTEST_TIMEOUT:-8} GOVC_ONLY_DIRS="$dirs" GOVC_REPO="$scratch/repo" GOVC_VERIF="$scratch/verif" ./bin/govc check "$p" --tier quick 2>&1)
     ran=$((ran+1))
